@@ -461,11 +461,17 @@ def _pre_k3(e: str, a: str, m: int) -> bool:
         return False
     if in_known_region(c['espec'], (e,)) or in_known_region(c['aspec'], (a,)):
         return False
-    if ob.excluded(R_CR) and root_kinds(c['espec']) == ('file',) and root_kinds(c['aspec']) == ('file',) \
-            and (has_cr(e) or has_cr(a)):
-        # c14-cr, second half: two file-backed texts are compared by their bytes
-        return False
+    if ob.excluded(R_CR):
+        # c14-cr, second half: two texts that both exist as files are compared by their BYTES
+        if 'file' in root_kinds(c['espec']) and has_cr(e) and may_be_on_disk(c['aspec']):
+            return False
+        if 'file' in root_kinds(c['aspec']) and has_cr(a) and may_be_on_disk(c['espec']):
+            return False
     return True
+
+
+def may_be_on_disk(spec) -> bool:
+    return 'file' in root_kinds(spec) or spec_has_cache(spec)
 
 
 def k3_equals(e: str, a: str, m: int) -> bool:
@@ -735,7 +741,8 @@ def obligations(tier: str) -> List[Ob]:
         # every order of three accesses: a concrete first access followed by two symbolic selectors
         for spec in [('str', 'filter'), ('file', 'writer'), (('concat', 'str', 'str'),)]:
             for first in ACCESSES:
-                obs.append(_k2_ob(spec, first, 2, ALPHA_MAIN, 2400, nsym=2))
+                obs.append(_k2_ob(spec, first, 2, ALPHA_PLAIN if isinstance(spec[0], tuple) else ALPHA_MAIN, 3000,
+                                  nsym=2))
     obs.append(_k2_ob(('str', 'filter'), SEQ_FROZEN_FIRST, 3, ALPHA_PLAIN, 120, tag=':seeded-in-memory',
                       oracle_bug='in-memory'))
     obs[-1].expect = ob.REFUTE
